@@ -29,7 +29,7 @@ func (f AggregatorFactoryFunc) Create() Aggregator {
 
 // BackendEventHandler dispatches metrics and events to all configured backends (via Aggregators)
 type BackendHandler struct {
-	eventWg          sync.WaitGroup
+	eventWg          eventCounter
 	backends         []gostatsd.Backend
 	concurrentEvents chan struct{}
 
